@@ -60,9 +60,12 @@ Proof. exact announcement_reaches_everyone. Qed.
 Print Assumptions C12_flood_converges.
 
 (** the run hypothesis holds for every schedule of quiet steps without
-    Forget / Advance *)
+    Forget / Advance in which no withdrawal of the same origin is handed over
+    ([nw_run], executable; a withdrawal removes the origin's CIDR routes
+    whatever their sequence, so a delayed one would undo the refresh) *)
 Theorem C12_quiet_run_without_expiry_steps : forall cf o sq ops s,
   Forall (quiet_op o) ops -> forallb (fun op => negb (expiry_op op)) ops = true ->
+  nw_run cf o s ops = true ->
   quiet_run cf o sq s ops.
 Proof. exact quiet_run_syntactic. Qed.
 Print Assumptions C12_quiet_run_without_expiry_steps.
@@ -82,7 +85,7 @@ Example C12_example_converges :
   map (fun e => (kind_code (e_kind e), e_id e, e_origin e, e_seq e, e_path e)) (entries_of s 3)
   = [(0, 1, 0, 3, [2; 1; 0]); (1, 2, 0, 3, [2; 1; 0]); (3, 0, 0, 3, [2; 1; 0])].
 Proof.
-  split; [apply quiet_run_syntactic; [unfold cv_ops; repeat (apply Forall_cons; [exact I|]); apply Forall_nil|reflexivity]|].
+  split; [apply quiet_run_syntactic; [unfold cv_ops; repeat (apply Forall_cons; [exact I|]); apply Forall_nil|reflexivity|reflexivity]|].
   split; [vm_compute; reflexivity|]. split; [|vm_compute; reflexivity].
   apply (conn_step 4 0 _ 2 3); [apply (conn_step 4 0 _ 0 2); [apply conn_origin; vm_compute; auto| |vm_compute; auto]| |vm_compute; auto];
     vm_compute; reflexivity.
@@ -103,7 +106,7 @@ Proof.
   split.
   - intros n. unfold limit_of.
     destruct (N.to_nat n) as [|[|[|[|k]]]]; simpl; try (right; vm_compute; discriminate). left. destruct k; reflexivity.
-  - split; [apply quiet_run_syntactic; [repeat (apply Forall_cons; [exact I|]); apply Forall_nil|reflexivity]|].
+  - split; [apply quiet_run_syntactic; [repeat (apply Forall_cons; [exact I|]); apply Forall_nil|reflexivity|reflexivity]|].
     split; vm_compute; reflexivity.
 Qed.
 
